@@ -450,8 +450,9 @@ size_t dataLength, float realPrecision, float valueRangeSize, float medianValue_
 				pred = pred - state*interval;
 			}
 
-			//double-check the prediction error in case of machine-epsilon impact
-			if(fabs(curData-pred)>realPrecision)
+			//double-check the prediction error in case of machine-epsilon impact; just below the check radius predAbsErr*recip_precision+1 can
+			//also round up to the interval count, which makes the code intvRadius-state = 0, the marker of an unpredictable value
+			if(fabs(curData-pred)>realPrecision || type[i]==0)
 			{
 				type[i] = 0;
 				compressSingleFloatValue(vce, curData, realPrecision, medianValue, reqLength, reqBytesLength, resiBitsLength);
